@@ -7,7 +7,7 @@ HARNESS = os.path.join(ROOT, "harness")
 WORK = os.path.join(ROOT, "work")
 REPLAYS = os.path.join(ROOT, "replays")
 EVIDENCE = os.path.join(ROOT, "evidence")
-VH = os.path.join(HARNESS, "target", "debug", "vh")
+VH = os.environ.get("VERIF_VH") or os.path.join(HARNESS, "target", "debug", "vh")
 TLA_JAR = "/opt/veriftools/tla/tla2tools.jar"
 COMMUNITY = "/opt/veriftools/tla"
 
@@ -143,6 +143,7 @@ def run_tlc(module, cfg, workers=8, timeout=1800, extra=None, env_extra=None, si
     except OSError as e:
         raise ToolError("cannot start TLC: %s" % e)
     out_tail = []
+    important = []
     kept = []
     try:
         deadline = t0 + timeout
@@ -151,9 +152,11 @@ def run_tlc(module, cfg, workers=8, timeout=1800, extra=None, env_extra=None, si
             if keep_lines and keep_lines(line):
                 kept.append(line)
                 continue
+            if line.startswith("Error:") or "is violated" in line or "TRACE-REJECTED" in line:
+                important.append(line)
             out_tail.append(line)
             if len(out_tail) > 4000:
-                del out_tail[:1000]
+                del out_tail[300:1300]
             if time.time() > deadline:
                 p.kill()
                 raise ToolError("TLC timed out after %ss on %s" % (timeout, cfg))
@@ -175,7 +178,7 @@ def run_tlc(module, cfg, workers=8, timeout=1800, extra=None, env_extra=None, si
         # TLC leaves states/ dirs next to the spec when metadir is ignored
     r.wall = time.time() - t0
     r.lines = kept
-    r.output = "\n".join(out_tail)
+    r.output = "\n".join(important + out_tail)
     txt = r.output
     m = re.search(r"(\d+) states generated, (\d+) distinct states found", txt)
     if m:
